@@ -83,6 +83,11 @@ pub enum HOp {
     Rm { file: u8 },
     Revert { back: u8 },
     BranchDelete { branch: u8 },
+    /// One commit adds two files (one written by an agent, one by a person); on a side branch
+    /// the first is renamed to a third name, on this branch the second is renamed to the same
+    /// name; the branches are merged keeping both contents. `git blame` of the result then
+    /// attributes lines of ONE file to the SAME commit under TWO different original paths.
+    ConvergeRenames,
     /// `git reset --soft|--mixed HEAD~back` with uncommitted work in the tree (no commit
     /// first), then everything is committed (safety clause only)
     ResetDirty { back: u8, soft: bool },
@@ -130,6 +135,7 @@ impl HOp {
             HOp::ResetSoft { .. } => "reset-soft",
             HOp::ResetMixed { .. } => "reset-mixed",
             HOp::ResetHard { .. } => "reset-hard",
+            HOp::ConvergeRenames => "converge-renames",
             HOp::ResetDirty { soft: true, .. } => "reset-soft-dirty",
             HOp::ResetDirty { .. } => "reset-mixed-dirty",
             HOp::Stash => "stash",
@@ -1938,6 +1944,53 @@ impl Engine {
                         }
                     }
                 }
+            }
+            HOp::ConvergeRenames => {
+                out.class = OpClass::Destructive;
+                self.autocommit_if_dirty(rep);
+                let Some(cur) = self.current_branch() else {
+                    out.class = OpClass::Skipped;
+                    return out;
+                };
+                self.moved += 1;
+                let n = self.moved;
+                let (a, b, c, side) = (format!("conv{n}a.txt"), format!("conv{n}b.txt"), format!("conv{n}c.txt"), format!("convside{n}"));
+                let three = vec![LineSpec { style: 0, indent: 0 }, LineSpec { style: 0, indent: 0 }, LineSpec { style: 0, indent: 0 }];
+                self.w.edit(Actor::Ai(0), &a, &Edit::Insert { pos: 0, lines: three.clone() });
+                self.w.edit(Actor::Human, &b, &Edit::Insert { pos: 0, lines: three });
+                if !self.commit_pending("two new files in one commit", "commit", rep) {
+                    out.class = OpClass::Skipped;
+                    return out;
+                }
+                let ok = self.w.git(&["checkout", "-q", "-b", &side]).ok()
+                    && self.w.git(&["mv", "--", &a, &c]).ok()
+                    && self.w.git(&["commit", "-q", "-m", "rename the agent's file"]).ok()
+                    && self.w.git(&["switch", "-q", &cur]).ok()
+                    && self.w.git(&["mv", "--", &b, &c]).ok()
+                    && self.w.git(&["commit", "-q", "-m", "rename the person's file to the same name"]).ok();
+                if !ok {
+                    out.ok = false;
+                    self.w.resync_from_worktree();
+                    self.register_new_commits(kind);
+                    return out;
+                }
+                self.w.git(&["merge", "--no-edit", "-q", &side]);
+                let theirs = self.w.blob_at(&side, &c).unwrap_or_default();
+                let ours = self.w.blob_at("HEAD", &c).unwrap_or_default();
+                let mut both = theirs.clone();
+                both.extend_from_slice(&ours);
+                self.w.write_bytes(&c, &both);
+                self.w.git(&["add", "--", &c]);
+                let m = self.w.git_env(&["commit", "--no-edit", "-q"], &[("GIT_EDITOR", "true")]);
+                out.ok = m.ok();
+                self.w.files.remove(&a);
+                self.w.files.remove(&b);
+                self.w.resync_from_worktree();
+                if !self.names.contains(&c) {
+                    self.names.push(c);
+                }
+                self.register_new_commits(kind);
+                rep.class("one-commit-under-two-paths-in-one-file");
             }
             HOp::ResetDirty { back, soft } => {
                 out.class = OpClass::Destructive;
